@@ -87,3 +87,72 @@ CONTRACTS["excel:TimeDependentConnections.write#pair_without_a_series"] = dict(
     schema=schema, fragment={"iter": "range(0, len(self.to_pops))", "body_contains": "entry_tuple = (from_pop, to_pop)"}, make_env=_make_env_tdc(False), call_stubs=_stubs_tdc,
     ensures=[("C16.a_pair_without_data_gets_a_blank_row_in_the_same_columns", "worksheet.CELLS[1, 0] == '...' and worksheet.CELLS[1, 2] == '...' and worksheet.CELLS[1, 3] == '' and worksheet.CELLS[1, 4] == '' and worksheet.CELLS[1, 5] == '' and worksheet.CELLS[1, 6] == '...' and worksheet.CELLS[1, 7] is None and worksheet.CELLS[1, 8] is None and len(worksheet.CELLS) == 9")],
     defined_props=["C16"])
+
+
+# ---- the reader of the same table, one row (body of the row loop of TimeDependentValuesEntry.from_rows): the series is stored under the stripped row name with
+# the units (standard units lower-cased, others as written), uncertainty and assumption of its columns, and one point per year column that holds a number
+def _make_env_read(units, assumption_heading="assumption", with_optional=True):
+    def make(it):
+        from pyvc.interp import PyObjV, ClassV
+        from pyvc import source
+
+        em = source.load("excel")
+        V, S, A = z3.Real("value_2021"), z3.Real("sigma"), z3.Real("assumption")
+        cell = lambda v, t: PyObjV("Cell", em, {"value": v, "data_type": t, "coordinate": "X1"})
+        if with_optional:
+            row = [cell(" adults ", "s"), cell(units, "s" if units is not None else "n"), cell(S, "n"), cell(A, "n"), cell("OR", "s"), cell(None, "n"), cell(V, "n")]
+            headings, times = {"units": 1, "uncertainty": 2, assumption_heading: 3}, {2020.0: 5, 2021.0: 6}
+        else:
+            row = [cell(" adults ", "s"), cell(None, "n"), cell(V, "n")]
+            headings, times = {}, {2020.0: 1, 2021.0: 2}
+        tdve = PyObjV("TimeDependentValuesEntry", em, {"name": "table", "ts_attributes": {}, "tvec": np.array([2020.0, 2021.0])})
+        return {"row": row, "TimeSeries": ClassV("TimeSeries", source.load("utils")), "headings": headings, "times": times, "tdve": tdve, "ts_entries": {}, "known_headings": {"units", "uncertainty", "constant", "assumption"}, "V": V, "S": S, "A": A}
+
+    return make
+
+
+_rd_stubs = {"sc.isstring": (lambda it, v: isinstance(v, str))}
+for _tag, _units, _stored, _head in (("standard_units", " Probability ", "probability", "assumption"), ("other_units", " $/Person ", "$/Person", "constant"), ("blank_units", None, None, "assumption")):
+    CONTRACTS["excel:TimeDependentValuesEntry.from_rows#row_%s" % _tag] = dict(
+        schema=schema, fragment={"iter": "rows[1:]"}, make_env=_make_env_read(_units, _head), call_stubs=_rd_stubs, concrete_new=["TimeSeries"],
+        ensures=[("C16.the_series_is_stored_under_the_stripped_row_name", "len(ts_entries) == 1 and 'adults' in ts_entries"),
+                 ("C16.units_uncertainty_and_assumption_come_from_their_columns", "ts_entries['adults'].units == %r and ts_entries['adults'].sigma == S and ts_entries['adults'].assumption == A" % (_stored,)),
+                 ("C16.one_point_per_year_column_that_holds_a_number", "len(ts_entries['adults'].t) == 1 and ts_entries['adults'].t[0] == 2021.0 and len(ts_entries['adults'].vals) == 1 and ts_entries['adults'].vals[0] == V")],
+        defined_props=["C16"])
+CONTRACTS["excel:TimeDependentValuesEntry.from_rows#row_without_optional_columns"] = dict(
+    schema=schema, fragment={"iter": "rows[1:]"}, make_env=_make_env_read(None, with_optional=False), call_stubs=_rd_stubs, concrete_new=["TimeSeries"],
+    ensures=[("C16.absent_columns_mean_no_units_uncertainty_or_assumption", "ts_entries['adults'].units is None and ts_entries['adults'].sigma is None and ts_entries['adults'].assumption is None"),
+             ("C16.one_point_per_year_column_that_holds_a_number", "len(ts_entries['adults'].t) == 1 and ts_entries['adults'].t[0] == 2021.0 and ts_entries['adults'].vals[0] == V")],
+    defined_props=["C16"])
+
+
+# ---- the reader of a transfer / interaction table, one row (body of the row loop of TimeDependentConnections.from_tables): a row naming two listed populations
+# becomes the series of that (from, to) pair; a `...` row (a pair without data) is skipped; a population that is not listed is refused
+def _make_env_read_tdc(from_name, to_name="b"):
+    def make(it):
+        from pyvc.interp import PyObjV, ClassV
+        from pyvc import source
+
+        em = source.load("excel")
+        V, S, A = z3.Real("value_2021"), z3.Real("sigma"), z3.Real("assumption")
+        cell = lambda v, t: PyObjV("Cell", em, {"value": v, "data_type": t, "coordinate": "X1"})
+        row = [cell(from_name, "s"), cell("--->", "s"), cell(to_name, "s"), cell(" Number ", "s"), cell(S, "n"), cell(A, "n"), cell("OR", "s"), cell(None, "n"), cell(V, "n")]
+        tdc = PyObjV("TimeDependentConnections", em, {"code_name": "age", "ts_attributes": {}, "ts": {}, "tvec": np.array([2020.0, 2021.0])})
+        return {"row": row, "TimeSeries": ClassV("TimeSeries", source.load("utils")), "headings": {"from population": 0, "to population": 2, "units": 3, "uncertainty": 4, "constant": 5}, "times": {2020.0: 7, 2021.0: 8},
+                "tdc": tdc, "from_pops": ["a", "c"], "to_pops": ["b", "c"], "V": V, "S": S, "A": A}
+
+    return make
+
+
+CONTRACTS["excel:TimeDependentConnections.from_tables#row_with_a_series"] = dict(
+    schema=schema, fragment={"iter": "tables[2][1:]"}, make_env=_make_env_read_tdc("a"), call_stubs=_rd_stubs, concrete_new=["TimeSeries"],
+    ensures=[("C16.the_series_is_stored_under_its_from_to_pair", "len(tdc.ts) == 1 and ('a', 'b') in tdc.ts"),
+             ("C16.units_uncertainty_and_assumption_come_from_their_columns", "tdc.ts['a', 'b'].units == 'number' and tdc.ts['a', 'b'].sigma == S and tdc.ts['a', 'b'].assumption == A"),
+             ("C16.one_point_per_year_column_that_holds_a_number", "len(tdc.ts['a', 'b'].t) == 1 and tdc.ts['a', 'b'].t[0] == 2021.0 and len(tdc.ts['a', 'b'].vals) == 1 and tdc.ts['a', 'b'].vals[0] == V")],
+    defined_props=["C16"])
+CONTRACTS["excel:TimeDependentConnections.from_tables#row_without_data"] = dict(
+    schema=schema, fragment={"iter": "tables[2][1:]"}, make_env=_make_env_read_tdc("..."), call_stubs=_rd_stubs, concrete_new=["TimeSeries"],
+    ensures=[("C16.a_row_marked_as_having_no_data_is_skipped", "len(tdc.ts) == 0")], defined_props=["C16"])
+CONTRACTS["excel:TimeDependentConnections.from_tables#row_with_an_unknown_population"] = dict(
+    schema=schema, fragment={"iter": "tables[2][1:]"}, make_env=_make_env_read_tdc("a", "z"), call_stubs=_rd_stubs, concrete_new=["TimeSeries"],
+    raises={"AssertionError": "True"}, raises_props=["C16", "C18"], ensures=[], defined_props=["C16", "C18"])
